@@ -508,7 +508,7 @@ pub fn run(ctx: &Ctx) -> i32 {
         }
     }
     let mut rs: Vec<usize> = (1..=64).collect();
-    rs.extend_from_slice(&[100, 1000, 4095, 4096, 4097, 65536, 1_000_003, 1 << 20]);
+    rs.extend_from_slice(&[100, 1000, 4095, 4096, 4097, 65536, 1_000_003, 1 << 20, (1 << 20) + 1, (1 << 20) + 3, 3_000_001]);
     if !ctx.quick() {
         rs.extend_from_slice(&[(1 << 24) - 1, 1 << 24, (1 << 26) + 1]);
     }
@@ -539,11 +539,29 @@ pub fn run(ctx: &Ctx) -> i32 {
         }
     }
     let mut long: Vec<(usize, usize, usize)> = vec![(1, 70_000, 70_000), (2, 140_000, 70_000), (3, 200_000, 70_000), (5, 330_000, 70_000), (255, 70_000, 70_000), (256, 70_000, 66_000), (257, 70_000, 66_000)];
-    long.extend_from_slice(&[(65_535, 131_070, 3), (65_536, 131_072, 3), (65_537, 131_074, 3), (100_003, 200_006, 2)]);
+    long.extend_from_slice(&[(65_535, 131_070, 3), (65_536, 131_072, 3), (65_537, 131_074, 3), (100_003, 200_006, 2), (1_048_579, 2_097_158, 2)]);
     for &(m, draws, cycles) in &long {
         let o = check_long_runs(m, draws, cycles, &mut st);
         if let Err(c) = handle(ctx, o, format!("long-run:m={}", m), json!({"kind": "long-run", "m": m, "draws": draws, "cycles": cycles})) {
             return c;
+        }
+    }
+    // with a trace-level logger installed (log macros evaluate their arguments only then): all scripts of m <= 5, one long run
+    {
+        let outs = crate::common::with_trace_logging(|| {
+            let mut v = Vec::new();
+            for m in 1..=5 {
+                v.push((format!("logging:bijection:m={}", m), check_bijection(m, &mut st)));
+            }
+            v.push(("logging:long-run:m=3".to_string(), check_long_runs(3, 3000, 300, &mut st)));
+            v.push(("logging:history:m=3".to_string(), check_history(3, 4, &mut st)));
+            v
+        });
+        let _ = SAMPLE.with(|s| s.borrow_mut().take());
+        for (key, o) in outs {
+            if let Err(c) = handle(ctx, o, key, json!({"kind": "logging"})) {
+                return c;
+            }
         }
     }
     if st.ref_mismatch > 0 {
@@ -567,7 +585,7 @@ pub fn run(ctx: &Ctx) -> i32 {
         "exhaustive": true,
         "evaluations": execs,
         "distinct_nontrivial": st.distinct_perms,
-        "rule": "every script (one generator word per draw, the midpoint of each of the r=m-cursor equal sub-intervals) is run on the real FYshuffle; a case is distinct by its output order; (a) script->order is a bijection onto the m! orders, each script being a product of intervals of measure prod 1/r up to one 2^-52 word per boundary, (b) interval ends and the largest generator value stay in range for every r<=64 and selected large r, (c) every pre-reset history then reset equals a fresh instance (all histories for m<=4(5); for m in {64,128,192,256,1000,(4096)} all histories of 1-2 draws and small-choice histories of 3-4 draws), (d) every block of m draws without reset is a permutation, (e) long runs under one patterned script: >= 70000 draws without reset and >= 66000 cycles of (3 draws, reset, m draws compared with a fresh instance) for m in {1,2,3,5,255,256,257}, two full blocks and a few cycles for m in {65535,65536,65537,100003}",
+        "rule": "every script (one generator word per draw, the midpoint of each of the r=m-cursor equal sub-intervals) is run on the real FYshuffle; a case is distinct by its output order; (a) script->order is a bijection onto the m! orders, each script being a product of intervals of measure prod 1/r up to one 2^-52 word per boundary, (b) interval ends and the largest generator value stay in range for every r<=64 and selected large r, (c) every pre-reset history then reset equals a fresh instance (all histories for m<=4(5); for m in {64,128,192,256,1000,(4096)} all histories of 1-2 draws and small-choice histories of 3-4 draws), (d) every block of m draws without reset is a permutation, (e) long runs under one patterned script: >= 70000 draws without reset and >= 66000 cycles of (3 draws, reset, m draws compared with a fresh instance) for m in {1,2,3,5,255,256,257}, two full blocks and a few cycles for m in {65535,65536,65537,100003,1048579}, (f) all scripts for m <= 5, the histories of m = 3 and one long run again with a trace-level logger installed",
         "max_m_bijection": max_m,
         "scripts": st.scripts,
         "distinct_orders_total": st.distinct_perms,
@@ -602,6 +620,7 @@ pub fn replay(_ctx: &Ctx, case: &Value) -> Result<(bool, String), String> {
         Some("short-history") => check_short_histories_large_m(case["m"].as_u64().ok_or("m")? as usize, &mut st),
         Some("long-run") => check_long_runs(case["m"].as_u64().ok_or("m")? as usize, case["draws"].as_u64().ok_or("draws")? as usize, case["cycles"].as_u64().ok_or("cycles")? as usize, &mut st),
         Some("blocks") => check_blocks(case["m"].as_u64().ok_or("m")? as usize, case["nblocks"].as_u64().ok_or("nblocks")? as usize, &mut st),
+        Some("logging") => return Err("re-derived by running the check itself".into()),
         _ => return Err("unknown case kind".into()),
     };
     match o {
